@@ -294,7 +294,7 @@ def run_core(ch, env, prop):
     leaves = {}
     # one run in twelve cascades a deep, almost empty pyramid (start level 9-11: level-dependent code paths, large tile
     # indices) through a TOAST filter that accepts the populated paths
-    deep = ch.draw(12, kind="deep_cascade") == 11
+    deep = ch.draw(12, kind="deep_cascade") == 11 and fmt != "jpg"     # lossy re-encoding over 10 levels says nothing
     if deep:
         start = (10, 11, 9)[ch.draw(3, kind="deep_start")]
         use_filter = True
@@ -384,6 +384,7 @@ def run_core(ch, env, prop):
                       "deep_cascade": int(deep),
                       "merged_all_undefined": int(any(pp not in ref for pp in parent_cands))}}
 
+    common.draw_progress(ch, res)
     sim = Sim(ch, step_cap=60000)
     sim.rootdir = d
     sim.write_yields = (2, 1, 0)[ch.draw(3, kind="write_yields")]
@@ -398,10 +399,10 @@ def run_core(ch, env, prop):
             kw = {"parallel": workers}
             if tile_filter is not None:
                 kw["tile_filter"] = tile_filter
-            b.cascade(**kw)
+            b.cascade(**dict(kw, **common.pkw()))
             builder_box["b"] = b
         else:
-            cascade_images(pio, start, averaging_merger, parallel=workers, tile_filter=tile_filter)
+            cascade_images(pio, start, averaging_merger, parallel=workers, tile_filter=tile_filter, **common.pkw())
 
     main_task = sim.run(main)
     common.sim_summary(sim, res)
